@@ -98,6 +98,9 @@ structure Meta where
   arch : String
   mtype : String
   ftype : String
+  /-- `detectChatTemplate`: when `template.Named(kv.ChatTemplate())` recognises the GGUF's chat template, the
+      bytes of the named template and (if it has parameters) their JSON encoding -/
+  auto : Option (Bytes × Option Bytes) := none
   deriving DecidableEq, Repr, Inhabited
 
 /-- Which of the three repairs the tree under test contains (`false` = the pinned upstream behaviour).
@@ -106,15 +109,18 @@ structure Meta where
                    `deleteUnusedLayers`, and `NewLayerFromLayer` records the `sha256:` spelling;
     * `fixResolve` (F16b): `getExistingName` = exact name, else whole-name EqualFold match, else first
                    fold-equal part, over the SORTED list of existing names;
-    * `fixReturn`  (N1):   `CreateHandler` returns after the `parseFromModel` error. -/
+    * `fixReturn`  (N1):   `CreateHandler` returns after the `parseFromModel` error;
+    * `fixKeep`    (N2):   `removeLayer` (create.go) does not delete the blob of a dropped layer when a layer of
+                   another media type that stays in the list has the same digest. -/
 structure Variant where
   fixAlias : Bool
   fixResolve : Bool
   fixReturn : Bool
+  fixKeep : Bool := false
   deriving DecidableEq, Repr, Inhabited
 
-def Variant.pinned : Variant := ⟨false, false, false⟩
-def Variant.repaired : Variant := ⟨true, true, true⟩
+def Variant.pinned : Variant := ⟨false, false, false, false⟩
+def Variant.repaired : Variant := ⟨true, true, true, true⟩
 
 /-- the uninterpreted parts of the world (+ the variant of the code) -/
 structure Env where
@@ -319,6 +325,9 @@ def parsePairs : Nat → List Char → Option (List (String × String))
           | '"' :: r =>
             let (s, r') := takeUntil (· == '"') r
             ('"' :: s ++ ['"'], r'.drop 1)
+          | '[' :: r =>
+            let (s, r') := takeUntil (· == ']') r
+            ('[' :: s ++ [']'], r'.drop 1)
           | _ => takeUntil (fun c => c == ',' || c == '}') r2
         match r3 with
         | ',' :: r4 => (parsePairs fuel r4).map ((String.ofList k, String.ofList v) :: ·)
@@ -345,6 +354,8 @@ structure CreateReq where
   template : Option (Bytes × Bool)
   /-- non-empty `system` -/
   system : Option Bytes
+  /-- `license` (a string or a list of strings), in order -/
+  licenses : List Bytes := []
   /-- `parameters` as (key, raw JSON value) -/
   params : List (String × String)
 
@@ -371,24 +382,46 @@ def fromLayers (env : Env) (st : Store) : List Layer → Option (List (Layer × 
         | some mt => (fromLayers env st ls).map ((l', some mt) :: ·)
       else (fromLayers env st ls).map ((l', none) :: ·)
 
-/-- `convertModelFromFiles` (gguf case) → `ggufLayers` per file: error class or layers -/
-def fileLayers (env : Env) (st : Store) : List Digest → Except String (List (Layer × Option Meta))
-  | [] => .ok []
+/-- `detectChatTemplate` for one decoded GGUF: `NewLayer` of the named template and of its parameters.
+    These layers are WRITTEN now and referenced by no manifest yet. -/
+def autoLayers (env : Env) (st : Store) (mt : Meta) : Store × List (Layer × Option Meta) :=
+  match mt.auto with
+  | none => (st, [])
+  | some (t, none) =>
+    let (st1, lt) := newLayer env st t .template
+    (st1, [(lt, none)])
+  | some (t, some q) =>
+    let (st1, lt) := newLayer env st t .template
+    let (st2, lq) := newLayer env st1 q .params
+    (st2, [(lt, none), (lq, none)])
+
+/-- `convertModelFromFiles` (gguf case) → `ggufLayers` per file (file layer, then its auto-detected
+    template/params layers): error class or layers; the store is threaded because `NewLayer` writes -/
+def fileLayers (env : Env) (st : Store) : List Digest → Store × Except String (List (Layer × Option Meta))
+  | [] => (st, .ok [])
   | d :: ds =>
     match st.blob d.key with
-    | none => .error "e500"
+    | none => (st, .error "e500")
     | some c =>
       match env.gguf c with
-      | none => .error "e400"
+      | none => (st, .error "e400")
       | some mt =>
-        match fileLayers env st ds with
-        | .error e => .error e
-        | .ok r => .ok ((⟨.model, env.recorded d, c.length⟩, some mt) :: r)
+        match autoLayers env st mt with
+        | (st1, auto) =>
+          match fileLayers env st1 ds with
+          | (st2, .error e) => (st2, .error e)
+          | (st2, .ok r) => (st2, .ok ((⟨.model, env.recorded d, c.length⟩, some mt) :: auto ++ r))
+
+/-- the layers of `removeLayer(layers, mediatype)` on which `Layer.Remove` is called: all of that media type
+    (pinned); with N2 repaired, not those whose blob also backs a layer of another media type in the list -/
+def removable (env : Env) (layers : List Layer) (media : Media) : List Layer :=
+  layers.filter (fun l => l.media = media &&
+    (!env.v.fixKeep || !(layers.any (fun x => x.media ≠ media && x.digest.key == l.digest.key))))
 
 /-- `removeLayer(layers, mediatype)` followed by `NewLayer` + append -/
 def replaceLayer (env : Env) (st : Store) (layers : List Layer) (media : Media) (c : Bytes) :
     Store × List Layer :=
-  let st1 := removeLayers env st (layers.filter (fun l => l.media = media))
+  let st1 := removeLayers env st (removable env layers media)
   let (st2, l) := newLayer env st1 c media
   (st2, layers.filter (fun l => l.media ≠ media) ++ [l])
 
@@ -400,11 +433,18 @@ def stepTemplate (env : Env) (st : Store) (layers : List Layer) :
     if ok then
       let (st', ls) := replaceLayer env st layers .template t
       (st', some ls)
-    else (removeLayers env st (layers.filter (fun l => l.media = .template)), none)
+    else (removeLayers env st (removable env layers .template), none)
 
 def stepSystem (env : Env) (st : Store) (layers : List Layer) : Option Bytes → Store × List Layer
   | none => (st, layers)
   | some s => replaceLayer env st layers .system s
+
+/-- `setLicense` for each license text: `NewLayer` + append, nothing is removed -/
+def stepLicense (env : Env) (st : Store) (layers : List Layer) : List Bytes → Store × List Layer
+  | [] => (st, layers)
+  | l :: ls =>
+    let (st1, ll) := newLayer env st l .license
+    stepLicense env st1 (layers ++ [ll]) ls
 
 /-- merge of `setParameters`: request keys win, then the existing layers in order -/
 def mergeParams (p : List (String × String)) (existing : List (String × String)) : List (String × String) :=
@@ -439,16 +479,19 @@ def createModel (env : Env) (st : Store) (name : Name) (base : List (Layer × Op
   | (st1, none) => (st1, some "e400")
   | (st1, some l1) =>
     match stepSystem env st1 l1 r.system with
-    | (st2, l2) =>
+    | (st2a, l2a) =>
+     match stepLicense env st2a l2a r.licenses with
+     | (st2, l2) =>
       match stepParams env st2 l2 r.params with
       | (st3, none) => (st3, some "e500")
       | (st3, some l3) =>
         match newLayer env st3 (configJSON metas (l3.map (·.digest))) .config with
         | (st4, cfg) => (setManifest st4 name (.readable ⟨cfg, l3⟩), none)
 
-/-- base layers of the request; `none` = the handler returns after the error event -/
+/-- base layers of the request; `none` = the handler returns after the error event.  The store changes only
+    through the `NewLayer` calls of `detectChatTemplate`. -/
 def baseLayers (env : Env) (st : Store) (r : CreateReq) (frev : Bool) :
-    Option (List (Layer × Option Meta)) × List String :=
+    Store × Option (List (Layer × Option Meta)) × List String :=
   match r.src with
   | some f =>
     -- pinned: an error of parseFromModel is reported and the handler CONTINUES with no base layers;
@@ -458,22 +501,22 @@ def baseLayers (env : Env) (st : Store) (r : CreateReq) (frev : Bool) :
     match st.readableAt f with
     | some m =>
       match fromLayers env st m.layers with
-      | some b => (some b, [])
-      | none => (onErr, ["e500"])
-    | none => (onErr, ["e500"])
+      | some b => (st, some b, [])
+      | none => (st, onErr, ["e500"])
+    | none => (st, onErr, ["e500"])
   | none =>
-    if r.files.isEmpty then (none, ["e400"]) else
+    if r.files.isEmpty then (st, none, ["e400"]) else
     match fileLayers env st (if frev then r.files.reverse else r.files) with
-    | .ok b => (some b, [])
-    | .error e => (none, [e])
+    | (st', .ok b) => (st', some b, [])
+    | (st', .error e) => (st', none, [e])
 
 /-- `CreateHandler` after name resolution (streaming mode: every event is delivered) -/
 def createAt (env : Env) (st : Store) (r : CreateReq) (name : Name) (frev : Bool) : Store × List String :=
   let old := st.readableAt name
   match baseLayers env st r frev with
-  | (none, ev) => (st, ev)
-  | (some base, ev) =>
-    match createModel env st name base r with
+  | (st0, none, ev) => (st0, ev)
+  | (st0, some base, ev) =>
+    match createModel env st0 name base r with
     | (st1, some err) => (st1, ev ++ [err])
     | (st1, none) =>
       match old with
@@ -527,7 +570,7 @@ def showAt (env : Env) (st : Store) (t : Name) : String :=
   | some .corrupt => "h500"
   | some (.readable m) =>
     if (st.blob m.config.digest.key).isNone then "h404" else
-    if m.layers.any (fun l => (l.media = .template ∨ l.media = .system ∨ l.media = .params)
+    if m.layers.any (fun l => (l.media = .template ∨ l.media = .system ∨ l.media = .params ∨ l.media = .license)
           && (st.blob l.digest.key).isNone) then "h404" else
     match (m.layers.filter (fun l => l.media = .model)).getLast? with
     | none => "h404"
